@@ -553,6 +553,8 @@ def c08_tempo(scn, ctx):
     info = {}
 
     def change():
+        # deadline of the pending beat under the map the thread went to sleep with
+        info['stale_secs'] = clk.beats2secs(S.tasks['X']['req_hi'])
         clk.tempo = scn['tempo1']
         info['t_change'] = time.time()
         rec = S.tasks['X']
